@@ -120,6 +120,36 @@ pub fn check_c16(c: &Concrete, hash_seeds: &[u64]) -> (Vec<Violation>, Outcome, 
             format!("same scenario, same hash seed, after {} other compilations: {}", hash_seeds.len(), first_diff(&ref_obs, &obs)),
         ));
     }
+    // environment: how the main file is named on the command line (and from which directory) must not
+    // change the emitted program
+    if matches!(reference.result, ResultObs::Ok) {
+        for sp in ["absolute", "bare", "dot-slash", "relative-dir"] {
+            if sp == c.main_spelling {
+                continue;
+            }
+            let mut c2 = c.clone();
+            c2.main_spelling = sp.to_string();
+            let o = execute(&c2);
+            if !matches!(o.result, ResultObs::Ok) || o.sink_bytes != reference.sink_bytes {
+                vs.push(v(
+                    "C16",
+                    "environment",
+                    "main-file-spelling",
+                    format!(
+                        "main file given as {} vs as {}: {} bytes of Lua vs {}",
+                        c.main_spelling,
+                        sp,
+                        reference.sink_bytes.len(),
+                        match &o.result {
+                            ResultObs::Ok => format!("{} bytes", o.sink_bytes.len()),
+                            _ => "a rejection".to_string(),
+                        }
+                    ),
+                ));
+                break;
+            }
+        }
+    }
     // history: a brand-new thread that never compiled anything, against a brand-new thread that first
     // compiled four fixed programs of other shapes (other module layouts, rejected, std-free)
     let c1 = c.clone();
